@@ -160,6 +160,7 @@ func run(c *rt.Ctx) {
 		mu <- struct{}{}
 	})
 	lintLeg(c)
+	fileLeg(c)
 	rates := map[string]float64{}
 	low := false
 	for i, s := range sets {
@@ -179,6 +180,17 @@ func run(c *rt.Ctx) {
 
 func init() {
 	rt.Register("c08", rt.Monitor{Run: run, Replay: func(c *rt.Ctx, raw json.RawMessage) {
+		var fc FileCase
+		if json.Unmarshal(raw, &fc) == nil && fc.Leg == "file" {
+			why, key, _ := fileOne(fc)
+			if why != "" {
+				c.Violation("file|"+key, why, fc, nil)
+				fmt.Println("VIOLATED:", why)
+			} else {
+				fmt.Println("held")
+			}
+			return
+		}
 		var cs Case
 		if err := json.Unmarshal(raw, &cs); err != nil {
 			panic(err)
